@@ -14,6 +14,7 @@ import (
 	"sort"
 	"strconv"
 	"strings"
+	"sync"
 	"time"
 	_ "time/tzdata" // fallback when the host has no /usr/share/zoneinfo
 
@@ -76,6 +77,82 @@ func c18Eval(name string, argc int, consts []string, inputs []string) (string, [
 	return c18Kinds(errs), outs
 }
 
+// c18EvalPrefix compiles `{name "<prefix>{0}" consts…}` and evaluates it on the inputs with `prefix` cut off
+// (sequentially, or from 8 goroutines at once when par is set).
+func c18EvalPrefix(name, prefix string, consts []string, strs []string, par bool) (string, []string) {
+	var sb strings.Builder
+	sb.WriteString("{" + name + " ")
+	if prefix == "" {
+		sb.WriteString("{0}")
+	} else {
+		sb.WriteString("\"" + prefix + "{0}\"")
+	}
+	for _, c := range consts {
+		sb.WriteString(" " + c18Lit(c))
+	}
+	sb.WriteString("}")
+	kb := funclib.NewKeyBuilder()
+	compiled, errs := kb.Compile(sb.String())
+	if compiled == nil {
+		return "nil-compiled", nil
+	}
+	outs := make([]string, len(strs))
+	eval := func(i int) {
+		outs[i] = compiled.BuildKey(&expressions.KeyBuilderContextArray{Elements: []string{strings.TrimPrefix(strs[i], prefix)}})
+	}
+	if par {
+		var wg sync.WaitGroup
+		for g := 0; g < 8; g++ {
+			wg.Add(1)
+			go func(g int) {
+				defer wg.Done()
+				for i := g; i < len(strs); i += 8 {
+					eval(i)
+				}
+			}(g)
+		}
+		wg.Wait()
+	} else {
+		for i := range strs {
+			eval(i)
+		}
+	}
+	return c18Kinds(errs), outs
+}
+
+// c18CountCtx counts how often a stage reads its context.
+type c18CountCtx struct{ n int }
+
+func (c *c18CountCtx) GetMatch(idx int) string { c.n++; return "" }
+func (c *c18CountCtx) GetKey(key string) string { c.n++; return "" }
+
+// c18Keyword classifies what `{time <word>}` compiled to by observation: `now` is a constant near the
+// current time that never reads the context, `live` reads it and answers the current time, `delta`
+// reads it and answers the seconds since the stage was built; anything else goes to the date parser.
+func c18Keyword(word string) string {
+	t0 := time.Now().Unix()
+	kb := funclib.NewKeyBuilder()
+	compiled, _ := kb.Compile("{time " + c18Lit(word) + "}")
+	if compiled == nil {
+		return "nil-compiled"
+	}
+	ctx := &c18CountCtx{}
+	out := compiled.BuildKey(ctx)
+	t1 := time.Now().Unix()
+	v, err := strconv.ParseInt(out, 10, 64)
+	switch {
+	case err != nil:
+		return "ok kw=none"
+	case v >= 0 && v <= t1-t0+1 && ctx.n > 0:
+		return "ok kw=delta"
+	case v >= t0-1 && v <= t1+1 && ctx.n > 0:
+		return "ok kw=live"
+	case v >= t0-1 && v <= t1+1:
+		return "ok kw=now"
+	}
+	return "ok kw=none"
+}
+
 func c18One(name string, argc int, consts []string, input string) string {
 	k, outs := c18Eval(name, argc, consts, []string{input})
 	if outs == nil {
@@ -112,6 +189,26 @@ func c18Run(f []string) string {
 			return fmt.Sprintf("ok errs=%s val=%s", k, HexS(outs[0]))
 		}
 		return fmt.Sprintf("ok errs=%s val=%s", k, HexListS(outs))
+	case "seqe", "seqpar": // seqe prefix kind fmt zone zok strs … bucket
+		strs := UnHexListS(f[6])
+		var k string
+		var outs []string
+		if f[2] == "bucket" {
+			k, outs = c18EvalPrefix("buckettime", hs(1), []string{hs(13), hs(3), hs(4)}, strs, f[0] == "seqpar")
+		} else {
+			k, outs = c18EvalPrefix("time", hs(1), []string{hs(3), hs(4)}, strs, f[0] == "seqpar")
+		}
+		if outs == nil {
+			return k
+		}
+		if k != "." {
+			return fmt.Sprintf("ok errs=%s val=%s", k, HexS(outs[0]))
+		}
+		return fmt.Sprintf("ok errs=%s val=%s", k, HexListS(outs))
+	case "kw":
+		return c18Keyword(hs(1))
+	case "cc": // cc fn argc const1 enumok zoneok
+		return c18CompileCheck(f[1], atoi(2), f[3] == "1", f[4] == "1", f[5] == "1")
 	case "dur":
 		return c18One("duration", 1, nil, hs(1))
 	case "durf":
@@ -204,6 +301,47 @@ func c18Ok(z c18Zone) string {
 	return "0"
 }
 
+// c18CompileCheck compiles a helper with argc arguments; the second argument is a constant (a valid or an
+// invalid enum value) or `{1}`; the zone argument, when there is one, is valid or not.
+func c18CompileCheck(fn string, argc int, const1, enumOk, zoneOk bool) string {
+	second := map[string][2]string{"buckettime": {"hours", "fortnights"}, "timeattr": {"quarter", "century"}, "time": {"RFC3339", "RFC3339"},
+		"timeformat": {"RFC3339", "RFC3339"}, "duration": {"x", "x"}, "durationformat": {"x", "x"}}[fn]
+	zonePos := map[string]int{"time": 3, "timeformat": 3, "buckettime": 4, "timeattr": 3}[fn]
+	var sb strings.Builder
+	sb.WriteString("{" + fn)
+	for i := 1; i <= argc; i++ {
+		switch {
+		case i == 1:
+			sb.WriteString(" {0}")
+		case i == 2 && !const1:
+			sb.WriteString(" {1}")
+		case i == 2 && enumOk:
+			sb.WriteString(" " + second[0])
+		case i == 2:
+			sb.WriteString(" " + second[1])
+		case i == zonePos && zoneOk:
+			sb.WriteString(" Europe/Berlin")
+		case i == zonePos:
+			sb.WriteString(" Mars/Olympus")
+		default:
+			sb.WriteString(" RFC3339")
+		}
+	}
+	sb.WriteString("}")
+	kb := funclib.NewKeyBuilder()
+	compiled, errs := kb.Compile(sb.String())
+	if compiled == nil {
+		return "nil-compiled"
+	}
+	if k := c18Kinds(errs); k != "." {
+		return fmt.Sprintf("ok errs=%s val=%s", k, HexS(compiled.BuildKey(&expressions.KeyBuilderContextArray{Elements: []string{"0", "0"}})))
+	}
+	if argc == 0 {
+		return "ok errs=. val=-"
+	}
+	return "ok built"
+}
+
 // c18Table renders the transitions of z within +-3 years of u as `<off>:<abbr>,<from>:<off>:<abbr>,…`
 // (what the zone is before the first listed transition, then each transition).
 func c18Table(z c18Zone, u int64) string {
@@ -232,7 +370,7 @@ func c18Table(z c18Zone, u int64) string {
 }
 
 // layouts without any zone information: the location argument alone decides the instant
-var c18ZonelessLayouts = []string{"ANSIC", "2006-01-02 15:04:05", "2006-01-02T15:04:05", "Jan _2 2006 15:04:05", "02/01/2006 15:04", "2006-01-02", "Monday, 02-Jan-06 15:04:05", "15:04:05 2006-01-02"}
+var c18ZonelessLayouts = []string{"ANSIC", "2006-01-02 15:04:05", "2006-01-02T15:04:05", "Jan _2 2006 15:04:05", "02/01/2006 15:04", "2006-01-02", "Monday, 02-Jan-2006 15:04:05", "15:04:05 2006-01-02"}
 
 // c18ZoneCases: the transition-table ops around the transitions of z (gaps and overlaps included).
 func c18ZoneCases(r *Rand, z c18Zone, add func(string)) {
@@ -598,6 +736,26 @@ func c18Gen(r *Rand, tier string) []string {
 		}
 	}
 
+	// the cache stage behind a partly constant date expression, sequentially and from 8 goroutines
+	ne := 250
+	if tier == "thorough" {
+		ne = 6000
+	}
+	for i := 0; i < ne; i++ {
+		add(c18SeqPrefixCase(r, c18Zones[r.Intn(30)]))
+	}
+	// key-words and compile-time checks: small finite spaces, enumerated
+	for _, w := range []string{"now", "NOW", "Now", "live", "LIVE", "liVe", "delta", "DELTA", "Delta", "nowx", "no", "lives", "deltas", "2020-01-01", "later", " now", "now "} {
+		add("kw " + HexS(w))
+	}
+	for _, fn := range []string{"time", "timeformat", "duration", "durationformat", "buckettime", "timeattr"} {
+		for argc := 0; argc <= 5; argc++ {
+			for m := 0; m < 8; m++ {
+				add(fmt.Sprintf("cc %s %d %d %d %d", fn, argc, m&1, (m>>1)&1, (m>>2)&1))
+			}
+		}
+	}
+
 	// zones as transition tables: lookup, time.Date resolution, {time} without zone text (no oracle)
 	nz := 1500
 	if tier == "thorough" {
@@ -788,6 +946,77 @@ func c18SeqCase(r *Rand, z c18Zone) string {
 		strings.Join(offs, ","), HexListS(abbrs), strings.Join(autos, ","), aok.String(), HexS(bucket))
 }
 
+// c18SeqPrefixCase: one cache stage whose date expression is `"<prefix>{0}"`; all texts share one layout (so the
+// answers do not depend on the order of evaluation: theorem cache_order_independent), some inputs are empty (the
+// text is then the prefix alone: detected, parsed, but not remembered).
+func c18SeqPrefixCase(r *Rand, z c18Zone) string {
+	kind := "time"
+	bucket := ""
+	if r.Chance(1, 3) {
+		kind = "bucket"
+		bucket = Pick(r, []string{"seconds", "minutes", "hours", "days", "months", "years"})
+	}
+	op := "seqe"
+	if r.Chance(1, 2) {
+		op = "seqpar"
+	}
+	f := Pick(r, []string{"", "cache", "CACHE"})
+	layout := Pick(r, []string{"2006-01-02 15:04:05", "2006-01-02", "2006/01/02 15:04", time.RFC3339, "01/02/2006"})
+	base := time.Unix(c18Instant(r, z), 0).In(z.loc)
+	if base.Year() < 1971 || base.Year() > 2098 {
+		base = time.Unix(1460653945, 0).In(z.loc)
+	}
+	full := base.Format(layout)
+	if c18Gap(layout, full, z.loc) { // (a date-only layout puts the text at midnight, which some zones skip)
+		base = time.Unix(1460653945, 0).In(z.loc)
+		full = base.Format(layout)
+	}
+	cut := Pick(r, []int{0, 0, 4, 5, 7, 8})
+	if cut > len(full) {
+		cut = 0
+	}
+	prefix := full[:cut]
+	n := r.Range(1, 24)
+	var strs []string
+	for i := 0; i < n; i++ {
+		t := base.Add(time.Duration(r.Intn(20*86400)) * time.Second) // same year and month mostly; re-checked below
+		s := t.Format(layout)
+		if !strings.HasPrefix(s, prefix) || c18Gap(layout, s, z.loc) {
+			s = full
+		}
+		if r.Chance(1, 6) && (op == "seqe" || prefix == "") {
+			s = prefix // empty input (with a prefix its answer depends on whether a format is remembered already: not in parallel)
+		}
+		strs = append(strs, s)
+	}
+	var det, abbrs, offs []string
+	var dok strings.Builder
+	var outs []string
+	if z.ok {
+		_, outs = c18EvalPrefix("time", prefix, []string{f, z.arg}, strs, false)
+	}
+	for i, s := range strs {
+		d, err := dateparse.ParseFormat(s)
+		if err != nil {
+			dok.WriteString("0")
+			d = ""
+		} else {
+			dok.WriteString("1")
+		}
+		det = append(det, d)
+		o, a := 0, ""
+		if i < len(outs) {
+			if v, err := strconv.ParseInt(outs[i], 10, 64); err == nil {
+				o, a = c18ZoneAt(z, v)
+			}
+		}
+		offs = append(offs, strconv.Itoa(o))
+		abbrs = append(abbrs, a)
+	}
+	return fmt.Sprintf("%s %s %s %s %s %s %s %s %s %s %s . . %s", op, HexS(prefix), kind, HexS(f), HexS(z.arg), c18Ok(z), HexListS(strs), HexListS(det), dok.String(),
+		strings.Join(offs, ","), HexListS(abbrs), HexS(bucket))
+}
+
 func c18Stats(cases []string) map[string]int {
 	c18Init()
 	st := map[string]int{}
@@ -796,6 +1025,8 @@ func c18Stats(cases []string) map[string]int {
 		f := strings.Fields(c)
 		st["op."+f[0]]++
 		switch f[0] {
+		case "seqe", "seqpar", "kw", "cc":
+			continue
 		case "zone", "ztime":
 			if f[0] == "zone" {
 				st["zone-op."+f[3]]++
